@@ -37,7 +37,7 @@
     }
     #[kani::proof]
     #[kani::stub(chrono::Utc::now, crate::verif_support::any_now)]
-    fn time_plus_minus_duration() { plus_minus_duration(CHRONO_MAX_SECS, 86400, 7_258_118_400) }
+    fn time_plus_minus_duration() { plus_minus_duration(10_000_000, 1_700_006_400, 1_700_611_200) }   // one week of instants, durations up to 10^7 s (115 days)
     #[kani::proof]
     #[kani::stub(chrono::Utc::now, crate::verif_support::any_now)]
     fn time_plus_minus_duration_small() { plus_minus_duration(100_000, 1_700_006_400, 1_700_092_800) }
